@@ -23,3 +23,5 @@ EXPLANATION = ("Proved (SMT, all inputs): the seven EventTag values are ordered 
 UNITS = [TagOrder(), TaggedLt(), TimeUntil(), Advance(), Lookup("time_at"), Lookup("bpm_at"), CoalesceWarps(), RetimeEvents()]
 BOUNDED = [EngineVsStatement("time_at", k) for k in range(EngineVsStatement.PARTS)]
 witness_search = engine_witness(["time_at"])
+from props.engine_common import engine_xchecks
+THOROUGH_BOUNDED = engine_xchecks(["time_until", "lt"])
